@@ -252,6 +252,136 @@ def lossy_transformers(e):
     return out
 
 
+# --------------------------------------------------------------------------- constant folding of key-building helpers
+class NotConst(Exception):
+    pass
+
+
+def const_eval(e, env):
+    """evaluate an expression built from string/int constants, constant tuples, str.format / f-strings / + / %,
+    and comprehensions over constant sequences; raises NotConst otherwise"""
+    if isinstance(e, ast.Constant):
+        return e.value
+    if isinstance(e, ast.Name):
+        if e.id in env:
+            return env[e.id]
+        raise NotConst(e.id)
+    if isinstance(e, (ast.Tuple, ast.List)):
+        return [const_eval(x, env) for x in e.elts]
+    if isinstance(e, ast.JoinedStr):
+        out = ""
+        for v in e.values:
+            if isinstance(v, ast.Constant):
+                out += str(v.value)
+            elif isinstance(v, ast.FormattedValue) and v.format_spec is None and v.conversion == -1:
+                out += str(const_eval(v.value, env))
+            else:
+                raise NotConst("fstring")
+        return out
+    if isinstance(e, ast.Call) and isinstance(e.func, ast.Attribute) and e.func.attr == "format" and not e.keywords:
+        base = const_eval(e.func.value, env)
+        args = [const_eval(a, env) for a in e.args]
+        if isinstance(base, str):
+            return base.format(*args)
+        raise NotConst("format")
+    if isinstance(e, ast.BinOp) and isinstance(e.op, ast.Add):
+        l, r = const_eval(e.left, env), const_eval(e.right, env)
+        return l + r
+    if isinstance(e, ast.BinOp) and isinstance(e.op, ast.Mod):
+        l, r = const_eval(e.left, env), const_eval(e.right, env)
+        return l % (tuple(r) if isinstance(r, list) else r)
+    if isinstance(e, (ast.ListComp, ast.GeneratorExp)) and len(e.generators) == 1 and not e.generators[0].ifs and isinstance(e.generators[0].target, ast.Name):
+        seq = const_eval(e.generators[0].iter, env)
+        if not isinstance(seq, (list, tuple)):
+            raise NotConst("iter")
+        return [const_eval(e.elt, dict(env, **{e.generators[0].target.id: x})) for x in seq]
+    if isinstance(e, ast.Call) and call_name(e) in ("list", "tuple") and len(e.args) == 1:
+        return list(const_eval(e.args[0], env))
+    raise NotConst(type(e).__name__)
+
+
+def is_helper_call(ctx, f, e):
+    if not (isinstance(e, ast.Call) and h5_read_key(e) is None):
+        return False
+    nm = attr_tail(e) or ""
+    if nm in {fn.name for fn in ctx.R.funcs.values()}:
+        return True
+    return any(isinstance(n, ast.FunctionDef) and n.name == nm and n is not f.node for n in ast.walk(f.node))
+
+
+def helper_h5_keys(ctx, f, call):
+    """for a loader's call to a repository helper with constant arguments: the ordered list of h5 dataset keys the
+    helper reads from its file parameter, and whether it can fall back to None.  Raises AnalysisError if not evaluable."""
+    R = ctx.R
+    q = None
+    fn = call.func
+    if isinstance(fn, ast.Name):
+        q = R.chase(f.mod, fn.id)
+    elif isinstance(fn, ast.Attribute) and isinstance(fn.value, ast.Name):
+        base = fn.value.id
+        cq = f"{f.mod}.{f.cls}" if base in ("cls", "self") and f.cls else R.chase(f.mod, base)
+        if cq in R.classes:
+            q = R.lookup_method(cq, fn.attr)
+    h = R.funcs.get(q) if q else None
+    if h is None and isinstance(fn, ast.Name):
+        from engine.repo import Func
+        for n in ast.walk(f.node):          # a helper nested inside the loader itself
+            if isinstance(n, ast.FunctionDef) and n.name == fn.id and n is not f.node:
+                h = Func(f.mod, None, n, f.path)
+    if h is None:
+        raise AnalysisError(f"{f.site()}: helper `{U(fn)}` cannot be resolved")
+    params = [p for p in h.params if p not in ("self", "cls")]
+    env = {}
+    file_param = None
+    for p, a in zip(params, call.args):
+        try:
+            env[p] = const_eval(a, {})
+        except NotConst:
+            if file_param is None:
+                file_param = p
+    for k in call.keywords:
+        try:
+            env[k.arg] = const_eval(k.value, {})
+        except NotConst:
+            file_param = file_param or k.arg
+    if file_param is None:
+        raise AnalysisError(f"{h.site()}: no h5 file parameter identified")
+    keys = []
+    may_none = any(isinstance(r, ast.Return) and (r.value is None or (isinstance(r.value, ast.Constant) and r.value.value is None)) for r in walk_own(h.node))
+    try:
+        for st in h.node.body:
+            if isinstance(st, ast.Assign) and len(st.targets) == 1 and isinstance(st.targets[0], ast.Name):
+                try:
+                    env[st.targets[0].id] = const_eval(st.value, env)
+                except NotConst:
+                    pass
+        for n in walk_own(h.node):
+            if isinstance(n, ast.Subscript) and isinstance(n.value, ast.Name) and n.value.id == file_param and isinstance(n.ctx, ast.Load):
+                # f[key] with key constant, or the target of a comprehension / loop over a constant list
+                try:
+                    keys.append(const_eval(n.slice, env))
+                    continue
+                except NotConst:
+                    pass
+                if isinstance(n.slice, ast.Name):
+                    src = None
+                    for m in walk_own(h.node):
+                        if isinstance(m, (ast.comprehension, ast.For)) and isinstance(m.target, ast.Name) and m.target.id == n.slice.id:
+                            src = const_eval(m.iter, env)
+                    if src is None:
+                        raise NotConst(n.slice.id)
+                    keys += list(src)
+                else:
+                    raise NotConst("key")
+    except NotConst as e:
+        raise AnalysisError(f"{h.site()}: the datasets this helper reads cannot be determined statically ({e})")
+    seen = []
+    for k in keys:
+        if k not in seen:
+            seen.append(k)
+    return h, seen, may_none
+
+
 # --------------------------------------------------------------------------- h5 writer / reader agreement
 def loader_wiring(ctx, f, ctor_names):
     """{param: expr} restored by a load function: keyword/positional args of the
@@ -306,9 +436,25 @@ def serde_agreement(ctx, rule, save_q, load_q, table, ctor_names, positional=Non
         if e is None or (isinstance(e, ast.Constant) and e.value is None):
             ctx.bad(rule, site, f"loader does not restore `{param}` (the constructor would recompute or default it)")
             continue
-        if isinstance(e, ast.Call) and h5_read_key(e) is None and (attr_tail(e) or "") in {fn.name for fn in ctx.R.funcs.values()}:
-            raise AnalysisError(f"{site}: restored through the helper call `{U(e)[:70]}`; the rule reads keys only from "
-                                f"direct h5 reads and cannot decide which datasets the helper consults")
+        if is_helper_call(ctx, lf, e):
+            # a key-building helper: fold its constant arguments to the list of datasets it reads
+            h, keys, may_none = helper_h5_keys(ctx, lf, e)
+            unknown = [k for k in keys if ("ds", k) not in W]
+            if unknown:
+                ctx.bad(rule, site, f"`{param}` is restored through {h.site()}({U(e)[len(U(e.func)) + 1:-1][:50]}), which reads dataset(s) {unknown} that the writer never "
+                                    f"writes (written: {sorted(k for kd, k in W if kd == 'ds' and param.split('_')[0] in k)})" +
+                        ("; the helper then falls back to None and the constructor re-encodes from the rows" if may_none else ""))
+                continue
+            if isinstance(entry, str) or entry[1] >= len(keys):
+                raise AnalysisError(f"{site}: helper {h.site()} reads {keys}; cannot map them to `{name}`")
+            key = keys[entry[1]]
+            wexpr = inline(W[("ds", key)], senv)
+            inner, wwrap = write_wrapper(wexpr)
+            inner_s = strip_value_preserving(inner)
+            okk = U(inner_s).replace(" ", "") == want.replace(" ", "") and not lossy_transformers(wexpr)
+            ctx.check(rule, site, okk, f"`{name}` <- ds `{key}` (through {h.site()}) <- `{want}`",
+                      f"helper {h.site()} restores `{name}` from `{key}`, which stores `{U(inner_s)[:60]}` (expected `{want}`)")
+            continue
         if not isinstance(entry, str):
             if not isinstance(e, ast.Tuple) or len(e.elts) <= entry[1]:
                 ctx.bad(rule, site, f"`{param}` is restored as `{U(e)[:80]}`, not as a tuple of stored components")
